@@ -66,6 +66,11 @@ Succ(R, c) == LET ge == {p \in R : KeyLE(c, p)}
 \* THE routing function of consistent hashing: code x member set -> endpoint
 Lookup(U, c, S) == IF RingPts(U, S) = {} THEN None ELSE Owner(U, Succ(RingPts(U, S), c), S)
 
+\* The property does not prescribe WHO owns a point shared by several members, only that the choice does not
+\* depend on history: any member having the successor point is acceptable, provided every history reaching
+\* the same set makes the same choice (Lookup's choice, the least id, is one such rule).
+Accept(U, c, S) == IF RingPts(U, S) = {} THEN {None} ELSE Owners(U, Succ(RingPts(U, S), c), S)
+
 (***************************************************************************)
 (* The same function evaluated over a sorted sequence of all the           *)
 (* universe's points (a hint that is verified, see SortedHintOK); this is  *)
@@ -87,6 +92,7 @@ LowerBound(rs, c, lo, hi) ==
 SuccSeq(rs, c) == LET i == LowerBound(rs, c, 1, Len(rs) + 1) IN rs[IF i > Len(rs) THEN 1 ELSE i]
 
 LookupSeq(U, rs, c, S) == IF rs = <<>> THEN None ELSE Owner(U, SuccSeq(rs, c), S)
+AcceptSeq(U, rs, c, S) == IF rs = <<>> THEN {None} ELSE Owners(U, SuccSeq(rs, c), S)
 
 (***************************************************************************)
 (* Mod hash                                                                *)
